@@ -4,6 +4,7 @@ import (
 	"encoding/json"
 	"flag"
 	"fmt"
+	"golang.org/x/tools/go/ssa"
 	"os"
 	"runtime/debug"
 	"sort"
@@ -25,7 +26,16 @@ func main() {
 	replay := flag.String("replay", "", "replay file written by an earlier violation")
 	list := flag.Bool("list", false, "list implemented properties")
 	dump := flag.String("dump-terms", "", "development aid: print provenance terms for functions matching the pattern")
+	all := flag.Bool("all", false, "development aid (control mode only): every property on one loaded program, one ALL-RESULT line each")
 	flag.Parse()
+	if *all {
+		if !controlMode() {
+			fmt.Println("CHECKER-ERROR: -all is a development aid and needs VERIF_CONTROL=1 (nothing is written)")
+			os.Exit(2)
+		}
+		runAll()
+		return
+	}
 	if *dump != "" {
 		dumpTerms(LoadWorld(), *dump)
 		return
@@ -40,6 +50,46 @@ func main() {
 		return
 	}
 	os.Exit(run(*prop, *tier, *replay))
+}
+
+// runAll: every registered property on one loaded program (development aid for mutation campaigns).
+func runAll() {
+	var ids []string
+	for id := range registry {
+		ids = append(ids, id)
+	}
+	sort.Strings(ids)
+	var w *World
+	func() {
+		defer func() {
+			if e := recover(); e != nil {
+				fmt.Printf("ALL-LOAD-ERROR %v\n", e)
+			}
+		}()
+		w = LoadWorld()
+	}()
+	if w == nil {
+		os.Exit(2)
+	}
+	for _, id := range ids {
+		code := func() (code int) {
+			defer func() {
+				if e := recover(); e != nil {
+					if ce, ok := e.(CheckerError); ok {
+						fmt.Printf("CHECKER-ERROR: %s\n", ce.Msg)
+					} else {
+						fmt.Printf("CHECKER-ERROR: analyser panic: %v\n", e)
+					}
+					code = 2
+				}
+			}()
+			matcherFlagDone = map[*ssa.Function]bool{}
+			r := NewReport(w, id, "quick", 0)
+			registry[id](w, r)
+			return r.Finish()
+		}()
+		fmt.Printf("ALL-RESULT %s rc=%d\n", id, code)
+	}
 }
 
 func run(prop, tier, replay string) (code int) {
